@@ -181,6 +181,7 @@ func runC07(c *core.Ctx) {
 	// ---- R6: the sender's panic exit (shared with C02-R3)
 	c.Rule("R6", "sender recover path: release the flag, then Close with the exception", 1)
 	runSenderRecover(c, e, "R6")
+	ruleFailedSenderReleasesCloser(c, e, "R6")
 
 	// ---- R4
 	e.checkAsException(c)
